@@ -384,6 +384,25 @@ def generate(tier, rng):
                     if required and not addl:
                         for rp in ([val], {'a': val}, {}):
                             yield make_case(params, dict(v, wide=True), None, rp, tag='validators-wide')
+    # schemas that name their own dialect: the keywords mean what that dialect says (boolean exclusiveMinimum of draft-04,
+    # divisibleBy / required-as-boolean of draft-03, const / exclusiveMinimum-as-number of draft-06+)
+    DIALECTS = [
+        ({'$schema': 'http://json-schema.org/draft-04/schema#', 'type': 'object',
+          'properties': {'a': {'type': 'integer', 'minimum': 0, 'exclusiveMinimum': True}}, 'required': ['a']}, (0, 1, -1, 'x')),
+        ({'$schema': 'http://json-schema.org/draft-04/schema#', 'type': 'object',
+          'properties': {'a': {'type': 'number', 'maximum': 10, 'exclusiveMaximum': True}}}, (10, 9.5, 11)),
+        ({'$schema': 'http://json-schema.org/draft-03/schema#', 'type': 'object',
+          'properties': {'a': {'type': 'integer', 'divisibleBy': 2, 'required': True}}}, (2, 3, 0)),
+        ({'$schema': 'http://json-schema.org/draft-06/schema#', 'type': 'object',
+          'properties': {'a': {'type': 'integer', 'exclusiveMinimum': 0}}, 'required': ['a']}, (0, 1)),
+        ({'$schema': 'http://json-schema.org/draft-07/schema#', 'type': 'object',
+          'properties': {'a': {'const': 'k'}}, 'required': ['a']}, ('k', 'z')),
+    ]
+    for schema, vals in DIALECTS:
+        params = [{'n': 'a', 'k': 'pk', 'd': 'required' not in schema and '03' not in schema['$schema']}]
+        for val in vals:
+            for rp in ([val], {'a': val}):
+                yield make_case(params, {'kind': 'jsonschema', 'schema': schema}, None, rp, tag='validators-dialect')
     schema = {'type': 'object', 'properties': {'a': {'type': 'integer'}, 'b': {'type': 'string'}}, 'required': ['a']}
     for excluded in ([], ['dep']):
         params = [{'n': 'a', 'k': 'pk', 'd': False}, {'n': 'b', 'k': 'ko', 'd': True}, {'n': 'dep', 'k': 'ko', 'd': True}]
